@@ -77,6 +77,27 @@ std::vector<Scn> conf_scenarios() {
         char b[16] = {0}; nap(5); const long r = ::recv(s, b, sizeof b, 0); t.push_back(rv("recv", r) + " '" + std::string(b, r > 0 ? static_cast<std::size_t>(r) : 0) + "'");
         ::close(c); ::close(s); ::close(l);
     }});
+    v.push_back({"send_timeout_bounds_the_whole_call_against_a_trickling_reader", [](Trace& t) {
+        // SO_SNDTIMEO counts down over all the waits of one send(): a reader that keeps taking a little cannot keep the call alive
+        Pair p = make_pair();
+        timeval tv{0, 300000}; t.push_back(rv("setsockopt", setsockopt(p.c, SOL_SOCKET, SO_SNDTIMEO, &tv, sizeof tv)));
+        bool stop = false;
+        std::thread th([&] { char b[512]; while (!stop) { if (::recv(p.s, b, sizeof b, MSG_DONTWAIT) == 0) break; nap(40); } });
+        std::vector<char> big(32u << 20, 'x');
+        const auto t0 = std::chrono::steady_clock::now();
+        const long r = ::send(p.c, big.data(), big.size(), MSG_NOSIGNAL);
+        const auto ms = std::chrono::duration_cast<std::chrono::milliseconds>(std::chrono::steady_clock::now() - t0).count();
+        t.push_back(std::string("send_returns_a_partial_count=") + (r > 0 && static_cast<std::size_t>(r) < big.size() ? "1" : "0"));
+        t.push_back(std::string("after_about_the_timeout=") + (ms >= 250 && ms < 1500 ? "1" : "0"));
+        stop = true; th.join();
+        // nobody reads now: once the buffers are full a call takes nothing and gives up with EAGAIN
+        long r2 = 0; auto t1 = std::chrono::steady_clock::now();
+        for (int i = 0; i < 64; ++i) { t1 = std::chrono::steady_clock::now(); r2 = ::send(p.c, big.data(), big.size(), MSG_NOSIGNAL); if (r2 <= 0) break; }
+        const auto ms2 = std::chrono::duration_cast<std::chrono::milliseconds>(std::chrono::steady_clock::now() - t1).count();
+        t.push_back(rv("send_with_no_reader", r2));
+        t.push_back(std::string("after_about_the_timeout=") + (ms2 >= 250 && ms2 < 1500 ? "1" : "0"));
+        close_pair(p);
+    }});
     v.push_back({"recv_after_fin_returns_buffered_data_then_zero", [](Trace& t) {
         Pair p = make_pair();
         ::send(p.c, "xy", 2, MSG_NOSIGNAL); ::close(p.c); p.c = -1; nap(10);
